@@ -2,6 +2,11 @@
 """Writes MANIFEST.json from the table below (kept as code so that the 20 entries stay consistent)."""
 import json
 CLAIMED = {
+ "C15": dict(
+   text="Lean theorems for every code length n and every data word: decode(encode d) = d with no flag; any single stored-bit flip (incl. the overall parity bit) returns d, ded=0, sec=1 iff not the parity bit; any two distinct flips give ded=1, sec=0; compute_m_n leaves room for the data (k<=128, kernel-decided table); counters count events and saturate. Model tied to the real ECCEncoder/ECCDecoder, lane modules and LiteDRAMNativePortECC by exhaustive single/double flips and cycle-accurate co-simulation.",
+   note="Trusted: Lean kernel; SECDED contract as stated in Props/C15.lean; LiteX's ecc.py helper functions are modelled semantically (cover = positions with bit i set) and compared exhaustively for k<=128; CSR shims; Nat<->bit-list glue of the driver.",
+   technique="Lean 4 proof (XOR linearity over positions, all n) + exhaustive flip correspondence against the real encoder/decoder/port in Migen",
+   design="§6 C15"),
  "C06": dict(
    text="Lean theorems over the parametric address-map model for every geometry satisfying WF: left and right inverse (injective, onto), A10 never a column bit, row part, consecutive walk; model tied to the real crossbar routing and _AddressSlicer by exhaustive (small geometries) and dense evaluation in Migen's simulator.",
    note="Trusted: Lean kernel, Spec (Loc/addrOf/encodeCol in Props/C06.lean), correspondence harness; the steerer's rank/bank split is replicated in the harness and re-observed end-to-end by C01/C02 whole-core runs.",
